@@ -33,7 +33,9 @@ class C09(Property):
     rule = ("2-3 connected mock nodes; every datagram observed during establishment and operation (about 12) is re-injected at a later "
             "offset from {0,1,2,5,30,59,61,90,119,121,300,600} s with source address in {original, another peer, unknown}, verbatim, "
             "truncated or with one bit flipped; then a probe phase of 400 s (housekeeping every second, probe frames in both directions at "
-            "14 instants incl. 118..130 s around the handshake retry horizon); non-trivial = distinct (datagram, offset, source, mutation)")
+            "14 instants incl. 118..130 s around the handshake retry horizon); forged datagrams sealed under guessable keys (all key bytes 0x00 / "
+            "0xff) for every cipher x key id byte {0..4,255} x nonce half, carrying CLOSE / node-info / data messages, from the healthy peer's "
+            "address, right after the handshake and after the first rotations; non-trivial = distinct (datagram, offset, source, mutation)")
     assumptions = ["the attacker holds no trusted key (ideal AEAD, unforgeable signatures); in-window duplicates are bounded by C03"]
 
     def gen(self, rng, tier):
@@ -73,6 +75,48 @@ class C09(Property):
                         probes(s, n, at)
                 s.add("S.1", "S.2")
                 out.append(s.line())
+        # directed: genuine HANDSHAKE datagrams of every exchange in a 3-node mesh (1->2 and 3->1: ping, pong, peng each), replayed verbatim
+        # to either end of the healthy connection 1-2 with the other end's (or the third node's) address as claimed source, inside and just
+        # outside the 60 s in which the initiator keeps its handshake state
+        for k in range(0, 7):
+            for off in ([1, 30, 59, 61] if thorough else [rng.choice([1, 30, 59]), 61]):
+                for dst in (1, 2):
+                    for src in (3 - dst, 3):
+                        s = base(rng, 3)
+                        s.tick(off)
+                        s.add("J.%d.%d.%d" % (k, dst, src), "A", "O.1", "O.2", "S.1", "S.2")
+                        for at in range(1, 131):
+                            # the state is looked at after housekeeping and BEFORE anything is delivered: an immediate re-dial
+                            # must not hide that a healthy peer was dropped
+                            s.t += 1
+                            s.add("T.%d" % s.t, "H.1", "H.2", "H.3", "S.1", "S.2", "A")
+                            if at in (1, 2, 31, 62, 118, 122, 123, 125, 130):
+                                probes(s, 3, at)
+                        s.add("S.1", "S.2")
+                        out.append(s.line())
+        # forged, not replayed: well-formed datagrams sealed under a guessable key (all key bytes equal) for every cipher, key slot
+        # and nonce half, carrying a CLOSE, a node-info and a data message, from the healthy peer's address; early after the
+        # handshake (key slots 1-3 not yet rotated in) and later
+        plains = ["ff", "01" + "04001000000000000000000000000000000000" + "00", "00" + nu.ipv4_packet(nu.node_ip(9), nu.node_ip(1))]
+        for off in ([0, 3, 130, 250] if thorough else [0, 130]):
+            for n in (2, 3):
+                s = base(rng, n)
+                if off:
+                    s.tick(off)
+                for dst in (1, 2):
+                    for alg in (1, 2, 3):
+                        for keyid in (0, 1, 2, 3, 4, 255):
+                            for half in (0, 1):
+                                for kb in (0, 255):
+                                    s.add("Y.%d.%d.%d.%d.%d.%d.%s" % (dst, 3 - dst, alg, keyid, half, kb, rng.choice(plains)))
+                    s.add("O.%d" % dst)
+                s.add("A", "O.1", "O.2", "S.1", "S.2")
+                for at in range(1, 61):
+                    s.tick(1)
+                    if at in (1, 2, 3, 6, 31, 60):
+                        probes(s, n, at)
+                s.add("S.1", "S.2")
+                out.append(s.line())
         return out
 
     def model_line(self, line, impl_out):
@@ -85,7 +129,7 @@ class C09(Property):
         return True
 
     def tag(self, line, impl_out):
-        inj = [t for t in line.split() if t[0] in "JFU" and t[1] == "."]
+        inj = [t for t in line.split() if t[0] in "JFUY" and t[1] == "."]
         k = inj[0].split(".")[0] if inj else "?"
         dumps = [t for t in impl_out.split() if t.startswith("peers=")]
         ok = "?"
@@ -103,7 +147,7 @@ class C09(Property):
         for i, (o, r) in enumerate(zip(ops, outs)):
             if r.startswith("panic"):
                 return "panic at op %d (%s)" % (i, o)
-            if o[0] in "JFU" and o[1] == "." and inj is None:
+            if o[0] in "JFUY" and o[1] == "." and inj is None:
                 inj = i
         if inj is None:
             return None
@@ -125,7 +169,9 @@ class C09(Property):
                 continue
             i += 1
         dumps = [(o, r) for o, r in zip(ops, outs) if o.startswith("S.")]
-        for (o, r) in dumps[-2:]:
+        # every look at nodes 1 and 2 after the injection (not only the last): the healthy peer and its routes are there
+        later = [(o, r) for j, (o, r) in enumerate(zip(ops, outs)) if j > inj and o in ("S.1", "S.2")]
+        for (o, r) in (later if len(later) > 4 else dumps[-2:]):
             d = nu.parse_dump(r)
             me = int(o.split(".")[1])
             peer = 3 - me
